@@ -128,6 +128,24 @@ func crossCheck(c *core.Ctx, s *run.Server, args []string, env map[string]string
 	if l1.Out != l2.Out || (l1.Exit == 0) != (l2.Exit == 0) {
 		c.HarnessError(fmt.Sprintf("L1/L2 disagree on %v: L1 exit=%d out=%q stderr=%q; L2 exit=%d out=%q err=%q",
 			args, l1.Exit, clip(l1.Out, 300), clip(l1.Serr, 300), l2.Exit, clip(l2.Out, 300), l2.Err))
+		return
+	}
+	// and with a terminal as standard output (a pseudo-terminal through script(1)): the same report
+	if l1.Exit == 0 && len(env) == 0 {
+		if pty, ok := run.ExecPty(c.HR, args, run.ExecOpts{Dir: s.Dir}); ok {
+			c.Count("l1_terminal_crosschecks", 1)
+			if pty.Exit != 0 || pty.Out != l1.Out {
+				name := "(no command)"
+				for _, a := range args {
+					if !strings.HasPrefix(a, "-") && !strings.Contains(a, ".") && !strings.Contains(a, "/") {
+						name = a
+						break
+					}
+				}
+				c.Violation(name+"|terminal-changes-the-report", fmt.Sprintf("%s: with a terminal as standard output exit %d and %d bytes, through a pipe exit 0 and %d bytes", joinArgs(args), pty.Exit, len(pty.Out), len(l1.Out)),
+					caseDoc{Args: args, Note: "files as left in the scratch directory of the case; stdout is a pseudo-terminal (script -qec)", Expected: resDoc(l1), Observed: resDoc(pty)})
+			}
+		}
 	}
 }
 
